@@ -36,7 +36,7 @@ def dom_heuristic_ensures(kmax):
 
 
 DH_MODIFIES = ["shr_domains_stack", "not_entailed_propagators_stack", "dom_update_stack", "stacks_top"]
-DH_TAGS = {"C09": ["C09", "C02"]}
+DH_TAGS = {"C09": ["C09", "C02", "C08"]}
 
 VH_TYPES = {"params": "opaque", "decision_domains": "u16[K]", "shr_domains_stack": "i32[H,D,2]", "stacks_top": "u8[1]"}
 VH_REQUIRES = ["H >= 1", "stacks_top[0] < H", "forall(k, 0, K, decision_domains[k] < D)"]
